@@ -89,6 +89,8 @@ type Config struct {
 	Junk       []byte `json:"junk,omitempty"`      // C03: bytes appended after the cut
 	Workers    [][]Op `json:"workers,omitempty"`   // C05: per-worker op lists
 	Sched      []int  `json:"sched,omitempty"`     // C05: schedule
+	NameSet    int    `json:"names,omitempty"`     // which set of collection names the indices refer to
+	CmpViaSet  bool   `json:"cmpviaset,omitempty"` // comparators re-installed by SetCollection after a load (no KeyCompareForCollection callback unless its bit is set)
 }
 
 // Case is one generated test case.
@@ -101,11 +103,30 @@ type Case struct {
 // UTF-8 only: names travel through encoding/json as object keys.
 var CollNames = []string{"a", "b", "c", "", "π/\"x\\<>&"}
 
+// NameSets are the alternative name sets a case may draw (Config.NameSet):
+// control characters, DEL, non-printable runes beyond the BMP, characters
+// encoding/json escapes, names that differ only in case or length, a long name.
+// All are valid UTF-8 and round-trip through encoding/json unchanged.
+var NameSets = [][]string{
+	CollNames,
+	{"a\x01", "\x7f", "b\x1fc", "\U000E0001", "tab\there"},
+	{"A", "a", "aa", "Z\u2028", "\u00e9"},
+	{strings.Repeat("n", 300), "0", "00", "\\", "\""},
+}
+
+// curNameSet is the name set of the case being generated, run or rendered
+// (cases run one at a time per process).
+var curNameSet int
+
 func collName(i int) string {
 	if i < 0 {
 		i = -i
 	}
-	return CollNames[i%len(CollNames)]
+	ns := NameSets[0]
+	if curNameSet > 0 && curNameSet < len(NameSets) {
+		ns = NameSets[curNameSet]
+	}
+	return ns[i%len(ns)]
 }
 
 func qb(b []byte) string {
@@ -213,6 +234,9 @@ func (o Op) String() string {
 
 // String renders a whole case.
 func (c Case) String() string {
+	saved := curNameSet
+	curNameSet = c.Cfg.NameSet
+	defer func() { curNameSet = saved }()
 	parts := make([]string, 0, len(c.Ops)+1)
 	kind := "file"
 	if c.Cfg.Mem {
